@@ -8,6 +8,7 @@ its matrix element for the recorded values is strictly positive.
 -/
 import QmcProofs.Worldline
 import QmcProofs.WorldlineIsing
+import QmcModel.Tempering
 
 namespace Qmc.C07
 open Qmc
@@ -162,6 +163,76 @@ holds field operators) -/
 theorem ising_field_op_illegal_without_field (s' : IsingSpec) (o : Op) (h0 : s'.h = 0)
     (hb : s'.nedges + s'.nvars ≤ o.bond) : ¬ o.LegalFor s'.ham :=
   Qmc.ising_field_op_illegal_without_field s' o h0 hb
+
+/-! ### finding F25 (defect of the unchanged library): the swap guard accepts `h = 0` next to `h ≠ 0`
+
+`QmcIsingGraph::can_swap_managers` compares `longitudinal.signum()` and `0.0.signum() = 1.0`; the
+guard is modelled in `QmcModel/Tempering.lean` (`Tempering.canSwapIsing`, C10). On the concrete
+witness the harness replays (`c06 swapwit`: 2 spins, J = 1, Γ = 1/2, h_a = 0, h_b = 1/2) the guard
+approves the pair in both directions, a string holding one longitudinal-field operator is legal for
+the `h = 1/2` sampler and NOT legal for the `h = 0` sampler — so a direct
+`swap_manager_and_state` after an approving `can_swap_managers` stores an illegal term. -/
+section F25
+open Qmc.Tempering
+
+/-- the `h = 0` sampler of the witness -/
+def guardA : Tempering.IsingH := { edges := [([0, 1], 1)], gamma := 1 / 2, h := 0, nvars := 2 }
+/-- the `h = 1/2` sampler -/
+def guardB : Tempering.IsingH := { edges := [([0, 1], 1)], gamma := 1 / 2, h := 1 / 2, nvars := 2 }
+/-- a longitudinal-field operator on variable 1 (bond 4 = 1 edge + 2 transverse + 1), spin up -/
+def guardS : Slots := [some (Op.diagonal [1] 4 [true] false)]
+
+theorem swapGuard_accepts_zero_field_witness :
+    canSwapIsing guardA guardB = true ∧ canSwapIsing guardB guardA = true ∧
+    LegalIsing guardB guardS ∧ ¬ LegalIsing guardA guardS := by
+  refine ⟨by norm_num [canSwapIsing, canSwapEdges, sgn, guardA, guardB],
+    by norm_num [canSwapIsing, canSwapEdges, sgn, guardA, guardB], ?_, ?_⟩
+  · intro o ho
+    simp only [guardS, List.mem_cons, Option.some.injEq, List.mem_nil_iff, or_false] at ho
+    subst ho
+    constructor
+    · norm_num [IsingH.numBonds, IsingH.nedges, guardB, absR, Op.diagonal, eps]
+    · norm_num [IsingH.wOp, IsingH.w, IsingH.nedges, guardB, Op.diagonal, longitudinalW, absR]
+  · intro hl
+    have := (hl (Op.diagonal [1] 4 [true] false) (by simp [guardS])).1
+    norm_num [IsingH.numBonds, IsingH.nedges, guardA, absR, Op.diagonal, eps] at this
+
+/-- the same two Hamiltonians in this property's own model -/
+def guardSpecA : IsingSpec := { nvars := 2, edges := [(0, 1, 1)], gamma := 1 / 2, h := 0 }
+def guardSpecB : IsingSpec := { nvars := 2, edges := [(0, 1, 1)], gamma := 1 / 2, h := 1 / 2 }
+
+/-- … and the same verdicts with this property's `Legal`: legal for the sender, illegal for the
+receiver the guard approved -/
+theorem swapGuard_witness_legal_then_illegal (st : List Bool) :
+    Legal guardSpecB.ham ⟨st, guardS⟩ ∧ ¬ Legal guardSpecA.ham ⟨st, guardS⟩ := by
+  constructor
+  · intro o ho
+    simp only [guardS, List.mem_cons, Option.some.injEq, List.mem_nil_iff, or_false] at ho
+    subst ho
+    have hw : guardSpecB.ham.w 4 [true] [true] = 1 := by
+      rw [IsingSpec.w_longitudinal guardSpecB 4 _ _ (by decide)]
+      have : guardSpecB.h = 1 / 2 := rfl
+      simp only [longitudinal, this]
+      rw [ratAbs_of_nonneg (by norm_num)]
+      norm_num
+    have hnb : guardSpecB.ham.nbonds = 5 := by
+      have : guardSpecB.ham.nbonds = guardSpecB.nedges + guardSpecB.nvars +
+          (if guardSpecB.h = 0 then 0 else guardSpecB.nvars) := rfl
+      rw [this]
+      have h2 : ¬ guardSpecB.h = 0 := by
+        have : guardSpecB.h = 1 / 2 := rfl
+        rw [this]; norm_num
+      simp only [h2, ite_false]
+      rfl
+    refine ⟨?_, by decide, by decide, by decide, by decide, ?_⟩
+    · rw [hnb]; decide
+    · simp only [Op.diagonal]
+      rw [hw]; norm_num
+  · intro hl
+    exact Qmc.ising_field_op_illegal_without_field guardSpecA _ rfl (by decide)
+      (hl (Op.diagonal [1] 4 [true] false) (by simp [guardS]))
+
+end F25
 
 /-! ### non-vacuity -/
 
